@@ -8,6 +8,12 @@
 #include "Compiler/include/parse_error.hpp"
 #include "Compiler/include/token.hpp"
 
+/* upper bound for the token stream of one compilation: files that include the
+ * same file twice double it with every level of nesting */
+#ifndef THEO_SCAN_MAX_TOKENS
+#define THEO_SCAN_MAX_TOKENS (1u << 20)
+#endif
+
 namespace Theo {
 typedef std::string FileName, FileContent;
 
